@@ -91,6 +91,7 @@ package updown
 //@   ghost gLastEnd int = 0
 //@   loop 1:
 //@     invariant len(sent(cUDs)) == range_i
+//@     invariant [c12.sent.allocated] forall(t, 0, range_i, allocated(sent(cUDs)[t].ambs) && allocated(sent(cUDs)[t].snps) && allocated(sent(cUDs)[t].snpsPos))
 //@     invariant forall(t, 0, range_i, sent(cUDs)[t].idx == recv(cFR)[t].Idx && sent(cUDs)[t].id == recv(cFR)[t].ID && len(sent(cUDs)[t].ambs) % 2 == 0)
 //@     invariant implies(exists(t, 0, range_i, len(recv(cFR)[t].Seq) != len(refSeq)), len(sent(cErr)) >= 1)
 //@     do-start gAmb = false; gStart = 0; gRuns = 0; gLastEnd = 0
@@ -108,6 +109,9 @@ package updown
 //@   after append#4: assert [range.mid] gAmb && ambs[len(ambs)-2] == gStart + 1 && ambs[len(ambs)-1] == i && resolved(FR.Seq[i]) && forall(k, gStart, i, !resolved(FR.Seq[k])) && (gStart == 0 || resolved(FR.Seq[gStart-1])) && implies(gRuns > 0, gStart + 1 >= gLastEnd + 2)
 //@   after append#6: assert [range.end] gAmb && ambs[len(ambs)-2] == gStart + 1 && ambs[len(ambs)-1] == len(FR.Seq) && forall(k, gStart, len(FR.Seq), !resolved(FR.Seq[k])) && (gStart == 0 || resolved(FR.Seq[gStart-1]))
 //@   # C09: snpsSorted (what whichWay binary-searches) is the SNP list in ascending string order: sorted, same length, every SNP present
+//@   # C12: a record handed to the next stage owns its slices: none of them shares an array with a record sent earlier (a
+//@   # worker that reuses a buffer would change records the writer has not consumed yet)
+//@   before send#2: assert [c12.own.slices] forall(t, 0, len(sent(cUDs)), disjoint(sent(cUDs)[t].ambs, udLine.ambs) && disjoint(sent(cUDs)[t].snps, udLine.snps) && disjoint(sent(cUDs)[t].snpsPos, udLine.snpsPos))
 //@   before send#2: assert [line.sorted] sorted(udLine.snpsSorted) && len(udLine.snpsSorted) == len(udLine.snps) && forall(j, 0, len(udLine.snps), 0 <= sortinv(j) && sortinv(j) < len(udLine.snps) && udLine.snpsSorted[sortinv(j)] == udLine.snps[j])
 //@   before send#2: assert [line.counts] udLine.snpCount == count(k, 0, len(FR.Seq), resolved(FR.Seq[k]) && (refSeq[k] & FR.Seq[k]) < 16) && udLine.ambCount == count(k, 0, len(FR.Seq), !resolved(FR.Seq[k])) && len(udLine.snps) == udLine.snpCount && len(udLine.snpsPos) == udLine.snpCount && len(udLine.ambs) == 2 * ite(gAmb, gRuns + 1, gRuns)
 //@   before send#2: assert [line.snps] forall(j, 0, len(FR.Seq), implies(resolved(FR.Seq[j]) && (refSeq[j] & FR.Seq[j]) < 16, udLine.snps[count(k, 0, j, resolved(FR.Seq[k]) && (refSeq[k] & FR.Seq[k]) < 16)] == DA[refSeq[j]] + itoa(j+1) + DA[FR.Seq[j]] && udLine.snpsPos[count(k, 0, j, resolved(FR.Seq[k]) && (refSeq[k] & FR.Seq[k]) < 16)] == j+1))
